@@ -295,39 +295,7 @@ def typed_mutation_streams(rng, tier, per_type=None, max_len=400):
                 rule="tdec <type> <valid encoding with one mutation: widened head, length +-1 / huge, definite<->indefinite, "
                      "major type swapped, break inserted, item substituted, bit flipped, byte appended>")
     s1.shrinkable = s2.shrinkable = False
-    # Token as an ELEMENT of the built-in containers: the trait impls Encode / Decode / CborLen for Token (not Encoder::tokens / the Tokenizer)
-    cops, cmops = [], []
-    singles = [t for t in toks[:400]] + ["break", "null", "undefined", "beginarray", "beginmap", "beginbytes", "beginstring", "array:0", "map:3", "tag:55799", "simple:255"]
-    def add(kind, ts):
-        cops.append(f"tokcont {kind} {','.join(ts) or '-'}")
-        body = [x for i, t in enumerate(ts) for x in (f"u8:{i}", t)] if kind == "map" else list(ts)
-        cmops.append(f"tokenc {','.join(body) or '-'}")
-    for t in singles:
-        for kind in ("vec", "boxed", "arr"):
-            add(kind, [t])
-        add("tup", [t, "u8:7"]); add("tup", ["u8:7", t]); add("map", ["u8:1", t]); add("deque", [t, t]); add("list", ["break", t, "break"])
-    for _ in range(1500 if tier == "quick" else 30000):
-        n = rng.choice([0, 1, 2, 2, 3, 3, 4, 5, 8, 23, 24, 25])
-        ts = [rng.choice(singles) if rng.random() < 0.6 else typegen.rand_token(rng) for _ in range(n)]
-        ts = [t for t in ts if not t.startswith("f16:") or t in toks]
-        kinds = ["vec", "deque", "list", "map"] + (["arr"] if 1 <= len(ts) <= 4 else []) + (["tup"] if 2 <= len(ts) <= 3 else [])
-        add(rng.choice(kinds), ts)
-    def judge_cont(op, impl, model, spec):
-        kind, n = op.split(" ")[1], (0 if op.split(" ")[2] == "-" else len(op.split(" ")[2].split(",")))
-        iw, mw = impl.split(" "), model.split(" ")
-        if len(iw) != 4 or len(mw) != 2:
-            return "violation" if len(iw) != 4 else "corr"
-        body = b"" if mw[0] == "-" else bytes.fromhex(mw[0])
-        exp = (b"" if kind == "boxed" else gen.head(5 if kind == "map" else 4, n)) + body
-        if iw[0] != (exp.hex() or "-") or iw[1] != f"len={len(exp)}" or iw[2] != "rt=ok" or iw[3] != f"pos={len(exp)}":
-            return "violation"
-        return "ok"
-    s3 = Stream("token-containers", "hcore", cops, model_ops=cmops, judge=judge_cont, nontrivial=lambda op, impl: " rt=ok " in impl,
-                rule="tokcont <container> <tokens>: Vec / VecDeque / LinkedList / [Token; 1..4] / tuples / BTreeMap<u8, Token> / Box<Token> of tokens (break, "
-                     "indefinite openers, null included): bytes == container head ++ the model's encoding of the tokens, minicbor::len == bytes, decode as "
-                     "the same type gives equal tokens (integers by value) and stops at the end")
-    s3.shrinkable = False
-    return [s1, s2, s3]
+    return [s1, s2]
 
 
 JUDGES = {"token-enc": judge_enc, "token-roundtrip": judge_token_roundtrip, "roundtrip-tenc": judge_enc, "roundtrip-tdec": judge_roundtrip, "typed-prefix": judge_prefix, "typed-mutated": judge_mutated}
